@@ -1,0 +1,51 @@
+//go:build verif
+
+package dawn
+
+import (
+	"io"
+
+	"github.com/pgavlin/dawn/label"
+	"github.com/pgavlin/dawn/pickle"
+	"go.starlark.net/starlark"
+)
+
+// This file exports a few unexported functions to the verification harness. It is only
+// compiled with the "verif" build tag and adds no behavior.
+
+// VerifSourceLabel exposes sourceLabel.
+func VerifSourceLabel(pkg, sourcePath string) (*label.Label, error) {
+	return sourceLabel(pkg, sourcePath)
+}
+
+// VerifRepoSourcePath exposes repoSourcePath.
+func VerifRepoSourcePath(pkg, sourcePath string) (string, error) {
+	return repoSourcePath(pkg, sourcePath)
+}
+
+// VerifLineWriter is the interface of the per-target line writer.
+type VerifLineWriter interface {
+	io.Writer
+	Flush() error
+}
+
+// VerifNewLineWriter exposes newLineWriter.
+func VerifNewLineWriter(l *label.Label, events Events) VerifLineWriter {
+	return newLineWriter(l, events)
+}
+
+// VerifFunctionEnv exposes functionEnv.
+func VerifFunctionEnv(f starlark.Callable) (starlark.Value, error) {
+	return functionEnv(f)
+}
+
+// VerifEnvPickler exposes envPickler.
+var VerifEnvPickler = pickle.PicklerFunc(envPickler)
+
+// VerifEnvUnpickler exposes envUnpickler.
+var VerifEnvUnpickler = pickle.UnpicklerFunc(envUnpickler)
+
+// VerifTargetInfoPath exposes (*Project).targetInfoPath.
+func VerifTargetInfoPath(proj *Project, l *label.Label) string {
+	return proj.targetInfoPath(l)
+}
